@@ -8,11 +8,13 @@ package main
 import (
 	"bytes"
 	"crypto"
-	"crypto/sha512"
 	"crypto/sha256"
+	"crypto/sha512"
 	"flag"
 	"fmt"
 	"os"
+	"reflect"
+	"strings"
 	"sync"
 
 	"github.com/oasisprotocol/curve25519-voi/curve"
@@ -36,25 +38,25 @@ func (zr) Read(p []byte) (int, error) {
 }
 
 type sharedT struct {
-	v    *cache.Verifier
-	lru  cache.Cache
-	epk  *ed25519.ExpandedPublicKey
-	pk   ed25519.PublicKey
-	sk   ed25519.PrivateKey
-	sig  []byte
-	P    *curve.EdwardsPoint
-	eP   *curve.ExpandedEdwardsPoint
-	tbl  *curve.EdwardsBasepointTable
-	R    *curve.RistrettoPoint
-	eR   *curve.ExpandedRistrettoPoint
-	rtbl *curve.RistrettoBasepointTable
-	ctx  *sr25519.SigningContext
-	kp   *sr25519.KeyPair
-	ssig *sr25519.Signature
-	tr   *merlin.Transcript
-	keys [4]curve.CompressedEdwardsY
-	exps [4]*ed25519.ExpandedPublicKey
-	xsk  []byte
+	v     *cache.Verifier
+	lru   cache.Cache
+	epk   *ed25519.ExpandedPublicKey
+	pk    ed25519.PublicKey
+	sk    ed25519.PrivateKey
+	sig   []byte
+	P     *curve.EdwardsPoint
+	eP    *curve.ExpandedEdwardsPoint
+	tbl   *curve.EdwardsBasepointTable
+	R     *curve.RistrettoPoint
+	eR    *curve.ExpandedRistrettoPoint
+	rtbl  *curve.RistrettoBasepointTable
+	ctx   *sr25519.SigningContext
+	kp    *sr25519.KeyPair
+	ssig  *sr25519.Signature
+	tr    *merlin.Transcript
+	keys  [4]curve.CompressedEdwardsY
+	exps  [4]*ed25519.ExpandedPublicKey
+	xsk   []byte
 	xpriv x25519.PrivateKey // deliberately NOT clamped: read-only methods must not normalise it in place
 	xpeer x25519.PublicKey
 }
@@ -115,14 +117,50 @@ func work(id int, shared *sharedT, rounds int) string {
 		}
 		ok, _ := bv.Verify(zr{})
 		fmt.Fprintf(&out, "%v ", ok)
+		if it == 0 {
+			// size thresholds (T14): a FAILING batch beyond every dispatch / chunking threshold (Pippenger at 95
+			// entries, anything the library might do per 128 entries), so that the per-entry fallback runs on a large
+			// batch while other goroutines do the same; the summary must be false and exactly the bad entries false
+			for _, n := range []int{130, 260} {
+				lbv := ed25519.NewBatchVerifier()
+				bad := append([]byte{}, sig...)
+				bad[33] ^= 1
+				for j := 0; j < n; j++ {
+					switch {
+					case j == 77 || j == n-1:
+						lbv.Add(pk, msg, bad)
+					case j%3 == 0:
+						lbv.AddExpanded(shared.epk, msg, shared.sig)
+					default:
+						lbv.Add(pk, msg, sig)
+					}
+				}
+				lall, leach := lbv.Verify(zr{})
+				nbad, wrong := 0, false
+				for j, v := range leach {
+					if !v {
+						nbad++
+					}
+					if v != (j != 77 && j != n-1) {
+						wrong = true
+					}
+				}
+				fmt.Fprintf(&out, "L%d:%v/%d/%v ", n, lall, nbad, wrong)
+				if lall || wrong || nbad != 2 {
+					fmt.Fprintf(&out, "ORACLE-FAIL(batch of %d with bad entries 77 and %d: all=%v per-entry-false=%d) ", n, n-1, lall, nbad)
+				}
+				lall2, _ := lbv.Verify(zr{})
+				fmt.Fprintf(&out, "%v ", lall2)
+			}
+		}
 		// error paths: malformed inputs and invalid options must be as thread-safe as the happy path
 		// (pooled or cached scratch state released twice on an error path only shows up afterwards)
 		{
 			ebv := ed25519.NewBatchVerifier()
-			ebv.AddWithOptions(pk, msg[:5], sig, &ed25519.Options{Hash: crypto.SHA512})                // ph with a non-64-byte message
-			ebv.AddWithOptions(pk, msg, sig, &ed25519.Options{Context: string(make([]byte, 300))})    // context too long
-			ebv.AddWithOptions(pk, msg, sig[:63], &ed25519.Options{})                                   // short signature
-			ebv.AddWithOptions(pk[:31], msg, sig, &ed25519.Options{})                                   // short key
+			ebv.AddWithOptions(pk, msg[:5], sig, &ed25519.Options{Hash: crypto.SHA512})            // ph with a non-64-byte message
+			ebv.AddWithOptions(pk, msg, sig, &ed25519.Options{Context: string(make([]byte, 300))}) // context too long
+			ebv.AddWithOptions(pk, msg, sig[:63], &ed25519.Options{})                              // short signature
+			ebv.AddWithOptions(pk[:31], msg, sig, &ed25519.Options{})                              // short key
 			ebv.AddWithOptions(pk, msg, sig, &ed25519.Options{Verify: &ed25519.VerifyOptions{AllowNonCanonicalR: true, CofactorlessVerify: true}})
 			ebv.AddExpandedWithOptions(nil, msg, sig, &ed25519.Options{})
 			ebv.Add(pk, msg, sig)
@@ -270,6 +308,18 @@ func globalDigest() string {
 // coldStart makes the FIRST use of every API family in this process concurrent: all goroutines meet at a
 // barrier and then enter the same family together, before anything has been called sequentially (a lazily
 // initialised package-level table or cache is only racy the first time).  Returns one result string per goroutine.
+// fresh holds objects whose FIRST use happens concurrently in the cold-start phase.
+var fresh struct {
+	o    [7]*ed25519.Options
+	snap [7]ed25519.Options
+	epk  *ed25519.ExpandedPublicKey
+	v    *cache.Verifier
+	tbl  *curve.EdwardsBasepointTable
+	eP   *curve.ExpandedEdwardsPoint
+	kp   *sr25519.KeyPair
+	sctx *sr25519.SigningContext
+}
+
 func coldStart(n int) []string {
 	res := make([]string, n)
 	outs := make([]bytes.Buffer, n)
@@ -284,8 +334,14 @@ func coldStart(n int) []string {
 	}
 	sts := make([]st, n)
 	steps := []func(id int){
-		func(id int) { sts[id].sk = ed25519.NewKeyFromSeed(bytes.Repeat([]byte{7}, 32)); sts[id].pk = sts[id].sk.Public().(ed25519.PublicKey) },
-		func(id int) { sts[id].sig = ed25519.Sign(sts[id].sk, msg); fmt.Fprintf(&outs[id], "%x ", sts[id].sig[:6]) },
+		func(id int) {
+			sts[id].sk = ed25519.NewKeyFromSeed(bytes.Repeat([]byte{7}, 32))
+			sts[id].pk = sts[id].sk.Public().(ed25519.PublicKey)
+		},
+		func(id int) {
+			sts[id].sig = ed25519.Sign(sts[id].sk, msg)
+			fmt.Fprintf(&outs[id], "%x ", sts[id].sig[:6])
+		},
 		func(id int) { fmt.Fprintf(&outs[id], "%v ", ed25519.Verify(sts[id].pk, msg, sts[id].sig)) },
 		func(id int) {
 			fmt.Fprintf(&outs[id], "%v ", ed25519.VerifyWithOptions(sts[id].pk, msg, sts[id].sig, &ed25519.Options{Verify: ed25519.VerifyOptionsStdLib}))
@@ -308,7 +364,10 @@ func coldStart(n int) []string {
 			fmt.Fprintf(&outs[id], "%x ", y[:6])
 		},
 		func(id int) { sts[id].pi = ecvrf.Prove(sts[id].sk, msg); fmt.Fprintf(&outs[id], "%x ", sts[id].pi[:6]) },
-		func(id int) { ok, b := ecvrf.Verify(sts[id].pk, sts[id].pi, msg); fmt.Fprintf(&outs[id], "%v%x ", ok, b[:4]) },
+		func(id int) {
+			ok, b := ecvrf.Verify(sts[id].pk, sts[id].pi, msg)
+			fmt.Fprintf(&outs[id], "%v%x ", ok, b[:4])
+		},
 		func(id int) {
 			var msk sr25519.MiniSecretKey
 			sts[id].kp = msk.ExpandUniform().KeyPair()
@@ -355,6 +414,64 @@ func coldStart(n int) []string {
 			v := cache.NewVerifier(cache.NewLRUCache(1))
 			fmt.Fprintf(&outs[id], "%v ", v.Verify(sts[id].pk, msg, sts[id].sig))
 		},
+		// first use of FRESH objects that all goroutines share (anything the library fills in lazily on first use -
+		// a defaulted option field, a lazily built table - is then written concurrently).  One fresh object per
+		// entry point: after one completed call the lazy write would not happen again.
+		func(id int) {
+			fmt.Fprintf(&outs[id], "%v ", ed25519.VerifyWithOptions(sts[id].pk, msg, sts[id].sig, fresh.o[0]))
+		},
+		func(id int) {
+			sg, err := sts[id].sk.Sign(nil, msg, fresh.o[1])
+			fmt.Fprintf(&outs[id], "%x%v ", sg[:6], err)
+		},
+		func(id int) {
+			sg, err := sts[id].sk.Sign(nil, msg, fresh.o[2]) // SelfVerify with Verify == nil
+			fmt.Fprintf(&outs[id], "%x%v ", sg[:6], err)
+		},
+		func(id int) {
+			fmt.Fprintf(&outs[id], "%v ", ed25519.VerifyExpandedWithOptions(fresh.epk, msg, sts[id].sig, fresh.o[3]))
+		},
+		func(id int) {
+			bv := ed25519.NewBatchVerifier()
+			bv.AddWithOptions(sts[id].pk, msg, sts[id].sig, fresh.o[4])
+			bv.AddExpandedWithOptions(fresh.epk, msg, sts[id].sig, fresh.o[5])
+			ok, _ := bv.Verify(zr{})
+			fmt.Fprintf(&outs[id], "%v ", ok)
+		},
+		func(id int) {
+			fmt.Fprintf(&outs[id], "%v ", fresh.v.VerifyWithOptions(sts[id].pk, msg, sts[id].sig, fresh.o[6]))
+		},
+		func(id int) {
+			var p curve.EdwardsPoint
+			s, _ := scalar.NewFromBits(bytes.Repeat([]byte{0x3c}, 32))
+			p.MulBasepoint(fresh.tbl, s)
+			b, _ := p.MarshalBinary()
+			p.ExpandedDoubleScalarMulBasepointVartime(s, fresh.eP, s)
+			b2, _ := p.MarshalBinary()
+			fmt.Fprintf(&outs[id], "%x%x ", b[:4], b2[:4])
+		},
+		func(id int) {
+			sg, _ := fresh.kp.Sign(zr{}, fresh.sctx.NewTranscriptBytes(msg))
+			fmt.Fprintf(&outs[id], "%v ", fresh.kp.PublicKey().Verify(fresh.sctx.NewTranscriptBytes(msg), sg))
+		},
+	}
+	{
+		sk := ed25519.NewKeyFromSeed(bytes.Repeat([]byte{7}, 32))
+		for i := range fresh.o {
+			fresh.o[i] = &ed25519.Options{}
+		}
+		fresh.o[2].SelfVerify = true
+		fresh.epk, _ = ed25519.NewExpandedPublicKey(sk.Public().(ed25519.PublicKey))
+		fresh.v = cache.NewVerifier(cache.NewLRUCache(2))
+		fresh.tbl = curve.NewEdwardsBasepointTable(curve.ED25519_BASEPOINT_POINT)
+		fresh.eP = curve.NewExpandedEdwardsPoint(curve.ED25519_BASEPOINT_POINT)
+		var msk sr25519.MiniSecretKey
+		msk[3] = 9
+		fresh.kp = msk.ExpandUniform().KeyPair()
+		fresh.sctx = sr25519.NewSigningContext([]byte("fresh"))
+		for i := range fresh.o {
+			fresh.snap[i] = *fresh.o[i]
+		}
 	}
 	for _, step := range steps {
 		var ready, done sync.WaitGroup
@@ -376,6 +493,12 @@ func coldStart(n int) []string {
 	for i := range res {
 		res[i] = outs[i].String()
 	}
+	// arguments passed by pointer belong to the caller: the library must not have written to them
+	for i := range fresh.o {
+		if !reflect.DeepEqual(*fresh.o[i], fresh.snap[i]) {
+			res[0] += fmt.Sprintf("ORACLE-FAIL(caller's Options #%d was modified by the library: %+v -> %+v) ", i, fresh.snap[i], *fresh.o[i])
+		}
+	}
 	return res
 }
 
@@ -385,6 +508,11 @@ func main() {
 	flag.Parse()
 	cold := coldStart(*n)
 	coldBad := 0
+	if i := strings.Index(cold[0], "ORACLE-FAIL"); i >= 0 {
+		fmt.Println("RESULT-MISMATCH cold-start oracle:", cold[0][i:])
+		coldBad++
+		cold[0] = cold[0][:i]
+	}
 	for i := range cold {
 		if cold[i] != cold[0] {
 			fmt.Println("RESULT-MISMATCH cold-start goroutine", i)
@@ -478,6 +606,10 @@ func main() {
 	}
 	if after := globalDigest(); after != before {
 		fmt.Println("GLOBAL-STATE-CHANGED package-level state differs after the concurrent phase")
+		bad++
+	}
+	if i := strings.Index(seq, "ORACLE-FAIL"); i >= 0 {
+		fmt.Println("RESULT-MISMATCH sequential run fails its own oracle:", seq[i:])
 		bad++
 	}
 	fmt.Printf("done goroutines=%d rounds=%d api_calls_per_goroutine=%d result_bytes=%d\n", *n, *rounds, *rounds*60, len(seq))
